@@ -230,3 +230,6 @@ LEVEL_TEXT = ("Decided by SMT over the real MIR: blocks are handed to the freeze
 LEVEL_NOTE = "Partial claim (threshold rule + read switch condition). RocksDB-level behaviour, wipe-out, crashes: outside (C09 covers the freezer files)."
 TECHNIQUE = "symbolic execution of rustc MIR -> integer-theory SMT (cvc5 + z3) with environment symbols for store/freezer calls"
 DESIGN_REF = "DESIGN.md section 4 (C10)"
+
+# ---- extended claim (session 3)
+LEVEL_TEXT = LEVEL_TEXT + " m4: the bytes read back from the freezer are decoded as a block in compatible mode (a frozen BlockV1 carries its extension as an extra field), get_block returns the view of that block and get_transaction_with_info the transaction at the recorded index together with the stored info."
